@@ -1,10 +1,11 @@
 (* Extraction of the C22 models.  Directives used: exactly those of ExtrOcamlBasic. *)
 Require Extraction.
 Require Import ExtrOcamlBasic.
-From OFGA Require Import Conc.FifoSpec Conc.Mpmc Conc.Mpsc.
+From OFGA Require Import Conc.FifoSpec Conc.Mpmc Conc.Mpsc Conc.Medium.
 Extraction Language OCaml.
 Extraction "c22_model.ml"
   spec_step chan0 run_spec
   init step run run_strict run_thread size lost_wakeup_state multi_receiver thread_idle_done
   lw_progs lw_sched
-  minit mstep mrun mrun_thread consumer_stuck prods_idle next_of_tail.
+  minit mstep mrun mrun_thread consumer_stuck prods_idle next_of_tail
+  minit_medium med_step med_step_alt.
